@@ -298,6 +298,33 @@ func runC07Case(idx int, cs *c07Case) (res c07Result) { //nolint:cyclop,gocognit
 					pump(true)
 				}
 			}
+		case "updlost":
+			// the first transmission of the KeyUpdate is lost, the retransmission timer re-sends it (twice), then the
+			// network delivers again: the retransmissions are protected like the first transmission
+			p := peer(st.Side)
+			if scen.Ver == "13" && p.hsReturned() && p.hsErr == nil {
+				wg.Add(1)
+				go func() {
+					defer wg.Done()
+					uctx, ucancel := context.WithTimeout(ctx, 3*time.Second)
+					defer ucancel()
+					_ = p.conn.UpdateKeys(uctx, KeyUpdateOptions{RequestPeerUpdate: idx%2 == 1})
+				}()
+				time.Sleep(300 * time.Microsecond)
+				r.waitQuiet(time.Second)
+				pump(false)
+				for k := 0; k < 2; k++ {
+					if p.fire() {
+						r.waitQuiet(time.Second)
+					}
+					if k == 0 {
+						pump(false)
+					}
+				}
+				for k := 0; k < 4; k++ {
+					pump(true)
+				}
+			}
 		case "close":
 			p := peer(st.Side)
 			wg.Add(1)
